@@ -306,7 +306,29 @@ def r20_7(ctx):
            "rcdom RcDom::append_based_on_parent_node")
 
 
+def r20_8(ctx):
+    """append_before_sibling(sibling, text): the text node it may merge into is the one directly BEFORE the sibling - child number
+    (index of sibling) - 1 of the sibling's parent - never the sibling itself or anything behind it"""
+    key, pcs = nfq.cells(ctx, AREA, "::RcDom[TreeSink]::append_before_sibling")
+    k = 0
+    bad = None
+    for pc in nfq.feasible(pcs):
+        for x in nfq.texts(pc):
+            m = re.match(r"call append_to_(existing|preceding)_text\((.*),p2\.0\)$", x)
+            if not m:
+                continue
+            k += 1
+            tgt = m.group(2)
+            idx = r"get_parent_and_index\(p1\)(\.expect\(\"[^\"]*\"\))?\.1"
+            ok = re.search(r"\.children\[\(%s - 1\)\]$" % idx, tgt) or re.search(r"\.children\[\.\.%s\]\.last\(\)(\.0)?$" % idx, tgt)
+            if not ok:
+                bad = "the merge target is %s, not the child directly before the sibling (children[index - 1])" % tgt[-90:]
+    ctx.ob("R20.8", "text-merges-into-the-node-before-the-sibling", bad is None and k >= 1, bad or "%d merge attempts, all into children[index of sibling - 1]" % k, "rcdom RcDom::append_before_sibling")
+
+
 def run(ctx):
+    ctx.rule("R20.8", "append_before_sibling merges text only into the node directly before the sibling")
+    ctx.guard("R20.8", "merge-target", lambda: r20_8(ctx))
     ctx.rule("R20.7", "append_based_on_parent_node: before the element iff it has any parent, else under the previous element")
     ctx.guard("R20.7", "based-on-parent", lambda: r20_7(ctx))
     ctx.rule("R20.6", "clone_with_subtree: children are fed to the LIFO work list in reverse at every site, so the copy keeps document order at every depth")
